@@ -130,6 +130,22 @@ pub fn gen_cases(tier: Tier, core: Core) -> Vec<Case> {
             };
             // the base tuple itself (must assemble)
             push(&mut out, base.ops.clone(), "legal", 0);
+            // 0. two register positions: every register in both at once (a check that looks at
+            //    the two operands together - their sum, their difference, one through the other -
+            //    is right for every tuple that departs from a legal one in one place only)
+            {
+                let regpos: Vec<usize> = base.ops.iter().enumerate().filter(|(_, o)| matches!(o, Opnd::Reg(_))).map(|(i, _)| i).collect();
+                if regpos.len() == 2 && std::ptr::eq(base, *by_mnem[mn].first().unwrap()) {
+                    for a in 0..32 {
+                        for b in 0..32 {
+                            let mut ops = base.ops.clone();
+                            ops[regpos[0]] = Opnd::Reg(a);
+                            ops[regpos[1]] = Opnd::Reg(b);
+                            push(&mut out, ops, "register-pair", regpos[1]);
+                        }
+                    }
+                }
+            }
             for (p, o) in base.ops.iter().enumerate() {
                 // 1. every register in each register position
                 if let Opnd::Reg(_) = o {
@@ -627,7 +643,7 @@ pub fn run(tier: Tier) -> i32 {
     rep.guard(mnems.len() >= 110, "fewer than 110 mnemonics enumerated");
     rep.guard(must_reject_full > 20_000, "fewer than 20k must-reject cases");
     rep.guard(cx.ok_seen.load(Ordering::Relaxed) > 1000 && cx.err_seen.load(Ordering::Relaxed) > 1000, "need both Ok and Err outcomes");
-    for cat in ["legal", "register", "register-alias", "numeric", "kind", "count-missing", "count-surplus"] {
+    for cat in ["legal", "register", "register-pair", "register-alias", "numeric", "kind", "count-missing", "count-surplus"] {
         rep.guard(cats.get(cat).copied().unwrap_or(0) > 0, &format!("category {} not generated", cat));
     }
     for i in [1usize, full.len() / 2, full.len() - 3] {
@@ -642,7 +658,7 @@ pub fn run(tier: Tier) -> i32 {
     let coverage = cov(json!({
         "evaluations": cx.evals.load(Ordering::Relaxed),
         "distinct_nontrivial": must_reject_full,
-        "rule": "per mnemonic: a few legal base tuples; each register position x r0..r31 (+ .def alias); each numeric field x a window beyond both ends of its legal range + extremes up to +-(2^63-1); each position x each operand kind (register, 9 pointer forms, displacement forms, number); operand counts 0..3; run one per build on no device, ATtiny20 (reduced core) and ATtiny11; relative jumps/branches also on ATmega8, ATtiny13, ATtiny45; every must-reject line (numeric windows thinned to every 7th value) also followed by each of four other segments (.org+code, .eseg data, .dseg+.cseg, .cseg+.org+data), and (numeric windows thinned to every 5th value) in the body of a called macro, of its second call, in a selected .if / .elif arm, behind other segments, with the number as a macro argument, and (every 8th) in an included file. distinct_nontrivial = distinct source lines (no device) that the reference says must be rejected; evaluations counts all builds",
+        "rule": "per mnemonic: a few legal base tuples; each register position x r0..r31 (+ .def alias); both register positions of a two-register mnemonic x all 32x32 pairs; each numeric field x a window beyond both ends of its legal range + extremes up to +-(2^63-1); each position x each operand kind (register, 9 pointer forms, displacement forms, number); operand counts 0..3; run one per build on no device, ATtiny20 (reduced core) and ATtiny11; relative jumps/branches also on ATmega8, ATtiny13, ATtiny45; every must-reject line (numeric windows thinned to every 7th value) also followed by each of four other segments (.org+code, .eseg data, .dseg+.cseg, .cseg+.org+data), and (numeric windows thinned to every 5th value) in the body of a called macro, of its second call, in a selected .if / .elif arm, behind other segments, with the number as a macro argument, and (every 8th) in an included file. distinct_nontrivial = distinct source lines (no device) that the reference says must be rejected; evaluations counts all builds",
         "exhaustive": true,
         "distinct_cases_full_core": distinct_full,
         "cases_reduced_core_specific": reduced.len(),
